@@ -24,7 +24,13 @@ pub fn run(env: &Env) {
             } }
         }
     }
-    env.ctx.set_rule("roots = suites x k0 (thorough + k1) x (L, M) in [0..=3]^2 (thorough [0..=4]^2) x header/ph in {none,16B} x commitment mode {no commitment as None, as Some(empty), commit(None), commit(Some([])), commit over M messages}; per root: commit -> blind_sign(serialized commitment) -> verify_blind_sign(committed messages, blinding factor) and signature bytes = reference; then ALL 2^L x 2^M disclosure pairs: blind_proof_gen -> blind_proof_verify(L) -> from_bytes(to_bytes) -> reference verifies -> implementation verifies a reference-made proof. State = (root, D, Dc). Non-trivial = blind proof produced with production randomness and verified by both verifiers.");
+    // wide shapes: the total L + 1 + M around word sizes (a mask / window slip shows only there); a few disclosure patterns each
+    for s in suites() { let k = key(s, "k0"); for (l, m) in [(60usize, 4usize), (59, 4), (63, 1), (63, 0), (64, 0), (65, 0), (0, 63), (0, 64), (32, 32), (31, 32), (100, 29), (127, 1), (128, 0), (1, 128), (0, 2045)] {
+        // (0, 2045): commitment_with_proof of 65 552 octets, proofs around 2^16 octets
+        if !env.thorough() && l + m > 130 { continue; }
+        roots.push(Root { id: format!("{}/k0/L{}/M{}/h=16B/commit/wide", s.name(), l, m), suite: s, key: k.clone(), l, m, hn: hs[2].0.clone(), header: hs[2].1.clone(), ph: hs[2].1.clone(), mode: if m == 0 { "no-commitment(None)" } else { "commit" } });
+    } }
+    env.ctx.set_rule("wide roots: (L, M) with L + 1 + M around 64 / 65 / 128 / 130 with disclosure patterns {none, all, first, last, even positions}; whenever a disclosed list is empty, all four spellings (None / Some(empty)) x (messages, indexes) must verify. roots = suites x k0 (thorough + k1) x (L, M) in [0..=3]^2 (thorough [0..=4]^2) x header/ph in {none,16B} x commitment mode {no commitment as None, as Some(empty), commit(None), commit(Some([])), commit over M messages}; per root: commit -> blind_sign(serialized commitment) -> verify_blind_sign(committed messages, blinding factor) and signature bytes = reference; then ALL 2^L x 2^M disclosure pairs: blind_proof_gen -> blind_proof_verify(L) -> from_bytes(to_bytes) -> reference verifies -> implementation verifies a reference-made proof. State = (root, D, Dc). Non-trivial = blind proof produced with production randomness and verified by both verifiers.");
     env.ctx.extra("deviation_bound_completed", json!(0));
     crate::hist::explore_families(env, &['B'], "blind interface histories");
     par_for(&roots, |_, r| {
@@ -63,7 +69,11 @@ pub fn run(env: &Env) {
         let rt = zk.dec_blind_sig(&sig);
         env.ctx.step();
         if rt.clone().ok().as_deref() != Some(&sig[..]) { env.ctx.violation("C05:roundtrip:blind-signature", &rt.describe(), env.case(&r.id, det0.clone())); }
-        for d in subsets(r.l) { for dc in subsets(r.m) {
+        let wide = r.id.ends_with("/wide");
+        let pats = |n: usize| -> Vec<Vec<usize>> { let mut v = vec![vec![], (0..n).collect::<Vec<_>>()]; if n > 1 { v.push(vec![0]); v.push(vec![n - 1]); v.push((0..n).step_by(2).collect()); } v.dedup(); v };
+        let choices: Vec<(Vec<usize>, Vec<usize>)> = if wide { let (a, b) = (pats(r.l), pats(r.m)); let mut c = Vec::new(); for (i, d) in a.iter().enumerate() { for (j, dc) in b.iter().enumerate() { if i == j || i == 0 || j == 0 { c.push((d.clone(), dc.clone())); } } } c }
+            else { let mut c = Vec::new(); for d in subsets(r.l) { for dc in subsets(r.m) { c.push((d.clone(), dc.clone())); } } c };
+        for (d, dc) in choices { {
             env.ctx.state(&[r.id.as_bytes(), format!("{:?}{:?}", d, dc).as_bytes()]);
             let det = json!({"base": det0, "disclosed": d, "disclosed_committed": dc});
             let u = r.l + r.m + 1 - d.len() - dc.len();
@@ -75,6 +85,20 @@ pub fn run(env: &Env) {
             let dcm: Vec<Vec<u8>> = dc.iter().map(|&i| cms[i].clone()).collect();
             let v = zk.blind_proof_verify(&k.pk, &p, oh(&r.header), oh(&r.ph), Some(r.l), Some(&dm), Some(&dcm), Some(&d), Some(&dc));
             expect(env, &r.id, &format!("blind_proof_verify D={:?} Dc={:?}", d, dc), &v, true, "blind_proof_verify", det.clone());
+            // an absent list and an empty list are the same statement, in every combination of the two spellings
+            if d.is_empty() || dc.is_empty() {
+                let e: &[Vec<u8>] = &[]; let ei: &[usize] = &[];
+                let forms: [(Option<&[Vec<u8>]>, Option<&[usize]>, &str); 4] = [(Some(e), Some(ei), "Some([]),Some([])"), (None, None, "None,None"), (None, Some(ei), "None,Some([])"), (Some(e), None, "Some([]),None")];
+                for (fm, fi, fname) in forms { for (cm, ci, cname) in forms {
+                    if fname == "Some([]),Some([])" && cname == fname { continue; }
+                    let (a_m, a_i) = if d.is_empty() { (fm, fi) } else { (Some(&dm[..]), Some(&d[..])) };
+                    let (b_m, b_i) = if dc.is_empty() { (cm, ci) } else { (Some(&dcm[..]), Some(&dc[..])) };
+                    if (!d.is_empty() && fname != "None,None") || (!dc.is_empty() && cname != "None,None") { continue; }
+                    if wide && !(fname == "None,Some([])" || cname == "Some([]),None") { continue; }
+                    let v = zk.blind_proof_verify(&k.pk, &p, oh(&r.header), oh(&r.ph), Some(r.l), a_m, b_m, a_i, b_i);
+                    expect(env, &r.id, &format!("blind_proof_verify D={:?} Dc={:?} with empty lists spelled signer:({}) committed:({})", d, dc, fname, cname), &v, true, "none-vs-empty:blind_proof_verify:lists", det.clone());
+                } }
+            }
             if r.l == 0 && d.is_empty() && dc.is_empty() {
                 let v = zk.blind_proof_verify(&k.pk, &p, oh(&r.header), oh(&r.ph), None, None, None, None, None);
                 expect(env, &r.id, "blind_proof_verify(all optional arguments None)", &v, true, "none-vs-empty:blind_proof_verify", det.clone());
@@ -85,6 +109,7 @@ pub fn run(env: &Env) {
             if let Err(e) = refbbs::blind_proof_verify(r.suite, &k.pk, &p, hb(&r.header), hb(&r.ph), r.l, &dm, &dcm, &d, &dc) {
                 env.ctx.violation("C05:reference-rejects-blind-proof", &e, env.case(&r.id, json!({"base": det0, "disclosed": d, "disclosed_committed": dc, "proof": hex::encode(&p)})));
             }
+            if wide { env.ctx.class("wide"); env.ctx.trace(); continue; }
             let rnd: Vec<_> = (0..5 + u).map(|i| refbbs::random_scalar_from(&seed.to_be_bytes(), r.id.as_bytes(), i as u64 + 1000 * (d.len() + 10 * dc.len()) as u64)).collect();
             match refbbs::blind_proof_gen(r.suite, &pk96, &sig, hb(&r.header), hb(&r.ph), &msgs, &cms, &d, &dc, &bsc, &rnd) {
                 Ok(rp) => { let v = zk.blind_proof_verify(&k.pk, &rp, oh(&r.header), oh(&r.ph), Some(r.l), Some(&dm), Some(&dcm), Some(&d), Some(&dc)); expect(env, &r.id, "blind_proof_verify(reference proof)", &v, true, "verify-reference-blind-proof", det.clone()); }
